@@ -55,7 +55,7 @@ def r1(ctx):
     ctx.check("System::shutdown_after_backtest", len(polls_e) == 1 and b.dominates(sb, polls_e[0]) and sb != polls_e[0],
               "the engine is awaited after the Shutdown was sent", key="engine-after")
     # the function returns the engine obtained from that await
-    oks = [render(t) for gg, t, bi in b.local_cases(0) if render(t).startswith("Result::Ok")]
+    oks = [render(t) for gg, t, bi in b.expanded_cases(0) if render(t).startswith("Result::Ok")]
     ctx.check("System::shutdown_after_backtest", len(oks) == 1 and "Future::poll(^self.engine" in oks[0],
               "returns the engine (and its final audit) handed back by the engine task", got=[x[:200] for x in oks], key="returns-engine")
 
@@ -95,7 +95,7 @@ def r2(ctx):
     ok = len(ts) == 1 and "shutdown_after_backtest" in render(ts[0][2][0]) and render(ts[0][2][0]).endswith(".as:Continue.0.0")
     ctx.check("backtest", ok, "the summary is generated from the engine returned by this call's own shutdown", got=[render(x[2][0])[-80:] for x in ts], key="own-summary")
     gen = [tm for bi, t, tm in calls if mir.short(tm[1]) == "TradingSummaryGenerator::generate"]
-    oks = [t for g, t, bi in b.local_cases(0) if render(t).startswith("Result::Ok")]
+    oks = [t for g, t, bi in b.expanded_cases(0) if render(t).startswith("Result::Ok")]
     ctx.check("backtest", len(gen) == 1 and len(oks) == 1 and render(gen[0]) in render(oks[0]) and "id: ^args_dynamic.id" in render(oks[0]),
               "and returned under this backtest's own id", key="returns")
     ctx.floor("backtest wiring checks", 8, 8)
@@ -103,7 +103,7 @@ def r2(ctx):
 
 def r3(ctx):
     b = _coroutine(ctx, "as barter::backtest::market_data::BacktestMarketData>::stream::{closure#0}", "<barter::backtest::market_data::MarketDataInMemory")
-    oks = [t for g, t, bi in b.local_cases(0) if render(t).startswith("Result::Ok")]
+    oks = [t for g, t, bi in b.expanded_cases(0) if render(t).startswith("Result::Ok")]
     ok = len(oks) == 1
     inner = oks[0][3][0] if ok else None
     ok = ok and inner[0] == "call" and inner[1].endswith("stream::iter") and inner[2][0][0] == "call" and inner[2][0][1].endswith("Iterator::map")
@@ -158,7 +158,7 @@ def r4(ctx):
     ctx.check("SystemBuild::init_internal", runners >= 4 and good == runners,
               "every engine runner consumes the receiver half of that same channel", got=(runners, good), key="feed-rx")
     # the System keeps that feed_tx (used later to send Shutdown)
-    oks = [t for g, t, bi in b.local_cases(0) if render(t).startswith("Result::Ok")]
+    oks = [t for g, t, bi in b.expanded_cases(0) if render(t).startswith("Result::Ok")]
     ctx.check("SystemBuild::init_internal", len(oks) == 1 and ("feed_tx: %s" % render(tx)) in render(oks[0]),
               "the System's feed_tx is that same transmitter", got=[render(x)[:200] for x in oks], key="system-feed-tx")
 
